@@ -4,7 +4,7 @@
 From Coq Require Import List NArith Bool Arith Sorted.
 From Coq Require Import Strings.Byte.
 Require Import BS.Bytes BS.Common BS.Api BS.Layout BS.Format BS.FormatFacts BS.Spec BS.SpecStep BS.Sections.
-Require Import BS.FS BS.FSFacts BS.Meta BS.MetaFacts BS.Header BS.Reader BS.ReaderFacts BS.Index BS.Data BS.DataFacts BS.Seek BS.SeekFacts BS.Series BS.SeriesFacts BS.ReadAllFacts.
+Require Import BS.FS BS.FSFacts BS.Meta BS.MetaFacts BS.Header BS.Reader BS.ReaderFacts BS.Index BS.Data BS.DataFacts BS.Seek BS.SeekFacts BS.Series BS.SeriesFacts BS.ReadAllFacts BS.HeaderFacts BS.OpenFacts.
 Import ListNotations.
 
 (* (I) creating over an existing series fails and leaves every file untouched *)
@@ -45,5 +45,38 @@ Theorem C17_create : forall fs name p hdr cb0,
     /\ (forall g, g <> name ++ ext_data -> g <> name ++ ext_index -> fs_get fs' g = fs_get fs g).
 Proof. exact series_new_ok. Qed.
 Print Assumptions C17_create.
-(* partial: reopen returning the stored header / rejecting another one needs the header parse round trip and
-   the open theorem; known finding D13 (stale cache file: residue) is outside these statements (caches = []). *)
+(* the header parser on the preamble the library writes, for EVERY payload size (u64) and every user header: it returns
+   the stored payload size and exactly the stored user header; when another payload size is demanded: Mismatch *)
+Theorem C17_header_parse : forall p uhdr popt, (p < 2^64)%N ->
+  check_and_split (params_to_text BSgen.Consts.version p ++ uhdr) popt
+  = match popt with
+    | Some q => if (p =? q)%N then Ok (p, uhdr) else Err EMismatch
+    | None => Ok (p, uhdr)
+    end.
+Proof. exact header_parse. Qed.
+Print Assumptions C17_header_parse.
+
+(* opening with another payload size than the stored one: an error, no file is touched (any content after the header) *)
+Theorem C17_other_payload_size : forall p fs name uhdr region q caches cb,
+  let header := params_to_text BSgen.Consts.version (N.of_nat p) ++ uhdr in
+  (len header <= 65535)%N -> (N.of_nat p < 2^64)%N -> q <> N.of_nat p ->
+  fs_get fs (name ++ ext_data) = Some (outer header ++ region) ->
+  series_open name (Some q) caches cb fs = (fs, Err EMismatch).
+Proof. exact open_other_payload. Qed.
+Print Assumptions C17_other_payload_size.
+
+(* opening with another user header than the stored one: an error, no file is touched; with the stored one, or any:
+   the handle, and the stored header is returned (props/C04.v C04_reopen_own). Conditions (b), (c) as in C04. *)
+Theorem C17_other_header : forall p fs s uhdr name popt e cb l,
+  let header := params_to_text BSgen.Consts.version (N.of_nat p) ++ uhdr in
+  RepH fs s p (outer header) (outer []) l ->
+  of_name (d_file (s_data s)) = name ++ ext_data -> of_name (ix_file (d_index (s_data s))) = name ++ ext_index ->
+  (len header <= 65535)%N -> (len (encode p l) < 2^64)%N -> (N.of_nat p < 2^64)%N ->
+  (popt = None \/ popt = Some (N.of_nat p)) ->
+  (l = [] \/ tail_clean p (encode p l)) ->
+  last_meta_timestamp p (encode p l) = Ok (full_after p None l) ->
+  e <> uhdr ->
+  builder_open name popt (HdrIs e) [] cb fs = (fs, Err EMismatch).
+Proof. exact open_other_header. Qed.
+Print Assumptions C17_other_header.
+(* partial: known finding D13 (stale cache file: residue) is outside these statements (caches = []). *)
